@@ -1,7 +1,39 @@
 (* C11 — proofs about the escape rewriting (unescape) and trim_end_unescaped. *)
-From Coq Require Import List Arith NArith Bool Lia.
+From Coq Require Import List Arith NArith Bool Lia Btauto.
 From GV Require Import Common.Outcome C11.Model C11.Spec C11.Slices.
 Import ListNotations.
+
+(* ---- the scanner over ANY table [lit] of kept escapes that does not list `b` ---------------
+   [esc_image_t lit] / [map_escapes_t lit] are [esc_image] / [map_escapes] of Spec.v with the table
+   [lit] in the place of the declarative list; the two coincide for the table of the code
+   ([esc_table_spec], below). *)
+Definition esc_image_t (lit : text -> bool) (iw pe : bool) (c : N) (rest : text) : text :=
+  if (c =? c_b)%N then (if pe then [92; 120; 48; 56]%N else [92; 98]%N)
+  else if lit (c :: rest) then [c_bsl; c]
+  else if rx_special iw c then rx_escape c
+  else [c].
+
+Fixpoint map_escapes_t (lit : text -> bool) (iw pe : bool) (re : text) : text :=
+  match re with
+  | [] => []
+  | c :: re1 =>
+      if (c =? c_bsl)%N then
+        match re1 with
+        | [] => [c]
+        | c2 :: re2 => esc_image_t lit iw pe c2 re2 ++ map_escapes_t lit iw pe re2
+        end
+      else c :: map_escapes_t lit iw pe re1
+  end.
+
+Section Generic.
+Variable lit : text -> bool.
+Hypothesis lit_b : forall rest, lit (c_b :: rest) = false.
+Notation esc_image := (esc_image_t lit).
+Notation map_escapes := (map_escapes_t lit).
+Notation unescape_first := (unescape_first_t lit).
+Notation unescape_step := (unescape_step_t lit).
+Notation unescape_rest := (unescape_rest_t lit).
+Notation unescape_gen := (unescape_gen_t lit).
 
 Definition no_bsl (m : text) : bool := forallb (fun c => negb (c =? c_bsl)%N) m.
 
@@ -24,7 +56,7 @@ Proof. reflexivity. Qed.
 (* ---- the declarative image, in the order in which the scanner tests ---- *)
 Definition esc_image_op (kw pe : bool) (c : N) (rest : text) : text :=
   if (c =? c_b)%N then (if pe then [92; 120; 48; 56]%N else [92; 98]%N)
-  else if is_meta_character c || lex_esc_literal (c :: rest) || ws_kept kw c then [c_bsl; c]
+  else if is_meta_character c || lit (c :: rest) || ws_kept kw c then [c_bsl; c]
   else if ws_special kw c then [92; 120; 123]%N ++ hex_upper c ++ [125]%N
   else [c].
 
@@ -42,9 +74,9 @@ Proof. intros c H. eapply mem_bound; [exact H|reflexivity]. Qed.
 
 Lemma esc_image_eq : forall kw pe c rest, esc_image kw pe c rest = esc_image_op kw pe c rest.
 Proof.
-  intros kw pe c rest. unfold esc_image, esc_image_op, lex_special, rx_special, rx_escape, ws_kept, ws_special.
+  intros kw pe c rest. unfold esc_image_t, esc_image_op, rx_special, rx_escape, ws_kept, ws_special.
   destruct (c =? c_b)%N; [reflexivity|].
-  destruct (lex_esc_literal (c :: rest)); [rewrite orb_true_r; reflexivity|]. rewrite orb_false_r.
+  destruct (lit (c :: rest)); [rewrite orb_true_r; reflexivity|]. rewrite orb_false_r.
   destruct (is_meta_character c) eqn:Em.
   - rewrite (meta_ascii c Em). reflexivity.
   - cbn [orb]. destruct (kw && is_rx_ws c); [|rewrite andb_false_r; reflexivity].
@@ -63,14 +95,14 @@ Lemma unescape_step_spec : forall kw pe re p m c it2 unesc,
   unescape_step kw re unesc (byte_len p) (byte_len (p ++ m)) (c :: it2) (byte_len (p ++ m) + 1) c pe
   = Done (unesc ++ m ++ esc_image kw pe c it2, byte_len (p ++ m ++ [c_bsl; c])).
 Proof.
-  intros kw pe re p m c it2 unesc ->. rewrite esc_image_eq. unfold unescape_step, esc_image_op.
+  intros kw pe re p m c it2 unesc ->. rewrite esc_image_eq. unfold unescape_step_t, esc_image_op.
   assert (Hl : byte_len (p ++ m ++ [c_bsl; c]) = byte_len (p ++ m) + 1 + len_utf8 c).
   { rewrite !byte_len_app. cbn [byte_len]. rewrite len_bsl. lia. }
   destruct (c =? c_b)%N eqn:Eb.
   - apply N.eqb_eq in Eb. subst c.
     rewrite (slice_app p m ([c_bsl; c_b] ++ it2)) by (rewrite ?byte_len_app; lia).
     cbn [obind]. rewrite Hl. rewrite len_b. repeat f_equal; try lia.
-  - destruct (is_meta_character c || lex_esc_literal (c :: it2) || ws_kept kw c) eqn:Ek.
+  - destruct (is_meta_character c || lit (c :: it2) || ws_kept kw c) eqn:Ek.
     + replace (p ++ m ++ [c_bsl; c] ++ it2) with (p ++ (m ++ [c_bsl; c]) ++ it2)
         by (rewrite <- !app_assoc; reflexivity).
       rewrite (slice_app p (m ++ [c_bsl; c]) it2);
@@ -100,13 +132,13 @@ Lemma unescape_rest_spec : forall fixd kw pe re n it p m unesc,
 Proof.
   intros fixd kw pe re n. induction n as [|n IH]; intros it p m unesc Hn Hre Hm.
   - destruct it; [|simpl in Hn; lia]. rewrite app_nil_r in Hre. subst re.
-    cbn [unescape_rest].
+    cbn [unescape_rest_t].
     rewrite slice_from_app. cbn [obind]. intros _. simpl. rewrite !app_nil_r. reflexivity.
   - destruct it as [|c it1].
     + rewrite app_nil_r in Hre. subst re.
-      cbn [unescape_rest].
+      cbn [unescape_rest_t].
       rewrite slice_from_app. cbn [obind]. intros _. simpl. rewrite !app_nil_r. reflexivity.
-    + cbn [unescape_rest]. destruct (c =? c_bsl)%N eqn:Ec.
+    + cbn [unescape_rest_t]. destruct (c =? c_bsl)%N eqn:Ec.
       * apply N.eqb_eq in Ec. subst c. destruct it1 as [|c2 it2].
         -- destruct fixd.
            ++ rewrite Hre. rewrite slice_from_app. cbn [obind]. intros _. reflexivity.
@@ -156,16 +188,16 @@ Proof.
   intros kw pe n. induction n as [|n IH]; intros it off Hn.
   - destruct it; [reflexivity|simpl in Hn; lia].
   - destruct it as [|c it1]; [reflexivity|].
-    cbn [unescape_first]. destruct (c =? c_bsl)%N eqn:Ec.
+    cbn [unescape_first_t]. destruct (c =? c_bsl)%N eqn:Ec.
     + apply N.eqb_eq in Ec. subst c. destruct it1 as [|c2 it2]; [reflexivity|].
-      destruct (negb (is_meta_character c2 || lex_esc_literal (c2 :: it2) || ws_kept kw c2)) eqn:Ek.
+      destruct (negb (is_meta_character c2 || lit (c2 :: it2) || ws_kept kw c2)) eqn:Ek.
       * exists []. simpl. repeat split; auto; lia.
       * specialize (IH it2 (off + 1 + len_utf8 c2)).
         assert (Hl : length it2 <= n) by (simpl in Hn; lia). specialize (IH Hl).
         apply negb_false_iff in Ek.
         assert (Hb : (c2 =? c_b)%N = false).
         { destruct (c2 =? c_b)%N eqn:Eb; [|reflexivity]. apply N.eqb_eq in Eb. subst c2.
-          destruct kw; simpl in Ek; discriminate. }
+          rewrite lit_b in Ek. destruct kw; simpl in Ek; discriminate. }
         assert (Himg : esc_image kw pe c2 it2 = [c_bsl; c2]).
         { rewrite esc_image_eq. unfold esc_image_op. rewrite Hb. rewrite Ek. reflexivity. }
         destruct (unescape_first kw it2 (off + 1 + len_utf8 c2)) as [[[[[[i s] j] c3] it3] off3]|].
@@ -191,7 +223,7 @@ Lemma unescape_gen_spec : forall fixd kw pe re,
   | _ => False
   end.
 Proof.
-  intros fixd kw pe re. unfold unescape_gen.
+  intros fixd kw pe re. unfold unescape_gen_t.
   pose proof (unescape_first_spec kw pe (length re) re 0 (le_n _)) as H.
   destruct (unescape_first kw re 0) as [[[[[[i s] j] c2] it2] off2]|].
   - destruct H as [m [Hre [Hs [Hi [Hj [Ho [Hm Hd]]]]]]]. subst s i j off2. cbn [plus].
@@ -213,26 +245,104 @@ Proof.
   - intros _. symmetry. exact H.
 Qed.
 
-Lemma unescape_spec : unescape_spec_stmt.
+
+Lemma unescape_gen_t_spec : forall fixd kw pe re, fixd = true \/ dangling re = false ->
+  unescape_gen fixd kw re pe = Done (map_escapes kw pe re).
 Proof.
-  intros pe re Hd. unfold unescape.
-  pose proof (unescape_gen_spec false false pe re) as H.
-  destruct (unescape_gen false false re pe) as [r| |]; try contradiction. f_equal. apply H. right. exact Hd.
+  intros fixd kw pe re Hd. pose proof (unescape_gen_spec fixd kw pe re) as H.
+  destruct (unescape_gen fixd kw re pe) as [r| |]; try contradiction. f_equal. apply H. exact Hd.
 Qed.
 
-Lemma unescape_iw_spec : unescape_iw_spec_stmt.
+Lemma unescape_gen_t_total : forall fixd kw pe re, exists r, unescape_gen fixd kw re pe = Done r.
 Proof.
-  intros iw pe re. pose proof (unescape_gen_spec true iw pe re) as H.
-  destruct (unescape_gen true iw re pe) as [r| |]; try contradiction. f_equal. apply H. left. reflexivity.
+  intros fixd kw pe re. pose proof (unescape_gen_spec fixd kw pe re) as H.
+  destruct (unescape_gen fixd kw re pe) as [r| |]; try contradiction. exists r. reflexivity.
 Qed.
+End Generic.
+
+(* ---- the table of the code is the declarative list ---- *)
+Lemma esc_table_spec : esc_table_spec_stmt.
+Proof.
+  split; [reflexivity|]. intros c rest. unfold lex_esc_literal, rx_escape_class, mem, c_bsl.
+  cbn [existsb].
+  generalize (match rest with d :: _ => is_xdigit d || (d =? 123)%N | [] => false end). intros h.
+  btauto.
+Qed.
+
+Lemma lex_esc_literal_b : forall rest, lex_esc_literal (c_b :: rest) = false.
+Proof. reflexivity. Qed.
+Lemma lex_esc_literal_orig_b : forall rest, lex_esc_literal_orig (c_b :: rest) = false.
+Proof. reflexivity. Qed.
+
+Lemma esc_image_t_code : forall iw pe c rest, esc_image_t lex_esc_literal iw pe c rest = esc_image iw pe c rest.
+Proof.
+  intros iw pe c rest. unfold esc_image_t, esc_image, lex_special.
+  rewrite (proj2 esc_table_spec). reflexivity.
+Qed.
+
+Lemma map_escapes_t_code : forall iw pe re, map_escapes_t lex_esc_literal iw pe re = map_escapes iw pe re.
+Proof.
+  intros iw pe re. remember (length re) as n eqn:Hn. revert re Hn.
+  induction n as [n IH] using lt_wf_ind. intros re Hn.
+  destruct re as [|c re1]; [reflexivity|]. cbn [map_escapes_t map_escapes].
+  destruct (c =? c_bsl)%N.
+  - destruct re1 as [|c2 re2]; [reflexivity|]. rewrite esc_image_t_code. f_equal.
+    apply (IH (length re2)); [subst n; simpl; lia|reflexivity].
+  - f_equal. apply (IH (length re1)); [subst n; simpl; lia|reflexivity].
+Qed.
+
+(* the scanner of the code, any repairs: on a text without a dangling backslash, or with that repair *)
+Lemma unescape_gen_code_spec : forall fixd kw pe re, fixd = true \/ dangling re = false ->
+  unescape_gen fixd kw re pe = Done (map_escapes kw pe re).
+Proof.
+  intros fixd kw pe re H. unfold unescape_gen.
+  rewrite (unescape_gen_t_spec lex_esc_literal lex_esc_literal_b fixd kw pe re H).
+  rewrite map_escapes_t_code. reflexivity.
+Qed.
+
+Lemma unescape_spec : unescape_spec_stmt.
+Proof. intros pe re Hd. unfold unescape. apply unescape_gen_code_spec. right. exact Hd. Qed.
+
+Lemma unescape_iw_spec : unescape_iw_spec_stmt.
+Proof. intros iw pe re. apply unescape_gen_code_spec. left. reflexivity. Qed.
 
 Lemma unescape_fixed_spec : unescape_fixed_spec_stmt.
 Proof. intros pe re. apply unescape_iw_spec. Qed.
 
 Lemma unescape_total : unescape_total_stmt.
 Proof.
-  intros fixd kw pe re. pose proof (unescape_gen_spec fixd kw pe re) as H.
-  destruct (unescape_gen fixd kw re pe) as [r| |]; try contradiction. exists r. reflexivity.
+  intros et fixd kw pe re. destruct et; cbn [unescape_sel].
+  - apply (unescape_gen_t_total lex_esc_literal lex_esc_literal_b).
+  - apply (unescape_gen_t_total lex_esc_literal_orig lex_esc_literal_orig_b).
+Qed.
+
+(* `a\Bb`, `\x{41}`, `[\x{41}-\x{43}]+` over the table before the repair *)
+Lemma esc_table_orig_refuted : esc_table_orig_refuted_stmt.
+Proof.
+  split; [split; reflexivity|]. split.
+  { intros c Hc rest. unfold mem in Hc. cbn [existsb] in Hc. rewrite orb_false_r in Hc.
+    apply orb_true_iff in Hc. destruct Hc as [Hc|Hc]; [apply N.eqb_eq in Hc; subst c; split; reflexivity|].
+    apply orb_true_iff in Hc. destruct Hc as [Hc|Hc]; apply N.eqb_eq in Hc; subst c; split; reflexivity. }
+  split; [|split].
+  - exists false. eexists. eexists. split; [|split; [|split; [|split; reflexivity]]].
+    + reflexivity.
+    + vm_compute. reflexivity.
+    + vm_compute. discriminate.
+  - exists false. eexists. eexists. split; [|split; [|split; [|split; reflexivity]]].
+    + reflexivity.
+    + vm_compute. reflexivity.
+    + vm_compute. discriminate.
+  - exists false. eexists. eexists. split; [|split; [|split; [|split; reflexivity]]].
+    + reflexivity.
+    + vm_compute. reflexivity.
+    + vm_compute. discriminate.
+Qed.
+
+Lemma lex_esc_refuted : lex_esc_refuted_stmt.
+Proof.
+  eexists. eexists.
+  split; [vm_compute; reflexivity|]. split; [vm_compute; reflexivity|].
+  split; [vm_compute; reflexivity|]. split; vm_compute; reflexivity.
 Qed.
 
 (* `\qx\` : accepted as `q` *)
@@ -288,7 +398,7 @@ Proof.
     rewrite forallb_app. unfold hex_upper. rewrite hex_go_not_ws by reflexivity. reflexivity.
   - intros pe c rest. unfold esc_image, lex_special, rx_special. cbn [andb]. rewrite orb_false_r.
     destruct (c =? c_b)%N; [reflexivity|].
-    destruct (lex_esc_literal (c :: rest)); [rewrite orb_true_r; reflexivity|]. rewrite orb_false_r.
+    destruct (rx_escape_class c rest); [rewrite orb_true_r; reflexivity|]. rewrite orb_false_r.
     destruct (is_meta_character c) eqn:Em; [|reflexivity].
     unfold rx_escape. rewrite (meta_ascii c Em). reflexivity.
 Qed.
@@ -297,11 +407,11 @@ Qed.
 Lemma skipn_app_length : forall (a b : text), skipn (length a) (a ++ b) = b.
 Proof. induction a as [|c a IH]; intros b; simpl; auto. Qed.
 
-Lemma trim_end_unescaped_aux : forall t w,
-  trim_end is_ws (t ++ w) = t ->
-  trim_end_unescaped (t ++ w) = Done (if Nat.odd (count_trailing_bsl t) then t ++ firstn 1 w else t).
+Lemma trim_end_unescaped_aux : forall f t w,
+  trim_end f (t ++ w) = t ->
+  trim_end_unescaped_gen f (t ++ w) = Done (if Nat.odd (count_trailing_bsl t) then t ++ firstn 1 w else t).
 Proof.
-  intros t w Ht. unfold trim_end_unescaped. rewrite Ht.
+  intros f t w Ht. unfold trim_end_unescaped_gen. rewrite Ht.
   destruct (byte_len t =? byte_len (t ++ w)) eqn:E.
   - apply Nat.eqb_eq in E. rewrite byte_len_app in E.
     assert (Hw0 : w = []) by (apply byte_len_zero; lia). subst w. rewrite app_nil_r.
@@ -315,27 +425,32 @@ Proof.
     reflexivity.
 Qed.
 
-Lemma trim_end_unescaped_spec : trim_end_unescaped_spec_stmt.
+(* for every set of trimmed characters (the code as it is now: blanks; before: Pattern_White_Space) *)
+Lemma trim_end_unescaped_gen_spec : forall f s,
+  trim_end_unescaped_gen f s = Done (trim_end_unescaped_ref_gen f s).
 Proof.
-  intros s. unfold trim_end_unescaped_ref.
-  destruct (trim_end_split is_ws s) as [w [Hs Hw]].
-  remember (trim_end is_ws s) as t eqn:Ht.
+  intros f s. unfold trim_end_unescaped_ref_gen.
+  destruct (trim_end_split f s) as [w [Hs Hw]].
+  remember (trim_end f s) as t eqn:Ht.
   assert (Hsk : skipn (length t) s = w) by (rewrite Hs; apply skipn_app_length).
   rewrite Hsk. rewrite Hs. apply trim_end_unescaped_aux. rewrite <- Hs. symmetry. exact Ht.
 Qed.
 
+Lemma trim_end_unescaped_spec : trim_end_unescaped_spec_stmt.
+Proof. intros s. apply trim_end_unescaped_gen_spec. Qed.
+
 Lemma trim_end_split_lemma : trim_end_split_stmt.
 Proof.
-  intros s. destruct (trim_end_split is_ws s) as [w [Hs Hw]]. exists w. repeat split; auto.
+  intros s. destruct (trim_end_split is_space_sep s) as [w [Hs Hw]]. exists w. repeat split; auto.
   intros c H. eapply trim_end_last; eauto.
 Qed.
 
 (* trim_end_unescaped never panics and returns a prefix of its argument *)
-Lemma trim_end_unescaped_prefix : forall s, exists r w, trim_end_unescaped s = Done r /\ s = r ++ w.
+Lemma trim_end_unescaped_prefix : forall f s, exists r w, trim_end_unescaped_gen f s = Done r /\ s = r ++ w.
 Proof.
-  intros s. rewrite trim_end_unescaped_spec. unfold trim_end_unescaped_ref.
-  destruct (trim_end_split is_ws s) as [w [Hs Hw]].
-  remember (trim_end is_ws s) as t eqn:Ht.
+  intros f s. rewrite trim_end_unescaped_gen_spec. unfold trim_end_unescaped_ref_gen.
+  destruct (trim_end_split f s) as [w [Hs Hw]].
+  remember (trim_end f s) as t eqn:Ht.
   assert (Hsk : skipn (length t) s = w) by (rewrite Hs; apply skipn_app_length).
   rewrite Hsk.
   destruct (Nat.odd (count_trailing_bsl t)).
@@ -343,4 +458,29 @@ Proof.
     + exists (t ++ []), []. split; [reflexivity|]. rewrite !app_nil_r. rewrite app_nil_r in Hs. exact Hs.
     + exists (t ++ [c]), w. split; [reflexivity|]. rewrite <- app_assoc. exact Hs.
   - exists t, w. split; [reflexivity|exact Hs].
+Qed.
+
+Lemma trim_end_keeps : trim_end_keeps_stmt.
+Proof.
+  intros s c Hc. unfold trim_end_unescaped, trim_end_unescaped_gen.
+  assert (Ht : trim_end is_space_sep (s ++ [c]) = s ++ [c]).
+  { unfold trim_end. rewrite rev_app_distr. cbn [rev app drop_while]. rewrite Hc.
+    change (rev (c :: rev s)) with (rev (rev s) ++ [c]). rewrite rev_involutive. reflexivity. }
+  rewrite Ht. rewrite Nat.eqb_refl. reflexivity.
+Qed.
+
+Lemma trim_orig_refuted : trim_orig_refuted_stmt.
+Proof.
+  split; [|vm_compute; reflexivity].
+  intros c Hc. unfold mem in Hc. cbn [existsb] in Hc. rewrite orb_false_r in Hc.
+  repeat (apply orb_true_iff in Hc; destruct Hc as [Hc|Hc];
+          [apply N.eqb_eq in Hc; subst c; split; vm_compute; reflexivity|]).
+  apply N.eqb_eq in Hc; subst c; split; vm_compute; reflexivity.
+Qed.
+
+Lemma lex_trim_refuted : lex_trim_refuted_stmt.
+Proof.
+  eexists. eexists.
+  split; [vm_compute; reflexivity|]. split; [vm_compute; reflexivity|].
+  split; vm_compute; reflexivity.
 Qed.
